@@ -245,6 +245,23 @@ class KGen:
                   "via": self.via(t, c)}
             if op["via"] == "shortcut" and op["callable"] and op["cb"]["pass"] and op["cb"]["async"] and rng.random() < 0.7:
                 op["via"] = "ctxtd"          # registered through @context_teardown (needs the current context)
+                subs = [d for d, x in self.ctxs.items() if x["state"] == "inactive" and x["parent"] == c]
+                if self.ctxs[c]["state"] == "open" and rng.random() < 0.3 and (subs or len(self.ctxs) < self.max_ctx):
+                    # … whose first half enters a sub-context by hand and keeps it open
+                    first = None
+                    if subs:
+                        d = rng.choice(subs)
+                    else:
+                        d = len(self.ctxs) + 1
+                        self.ctxs[d] = {"state": "inactive", "parent": c, "keys": list(self.ctxs[c]["keys"]),
+                                        "gated_keys": set(self.ctxs[c].get("gated_keys", ()))}
+                        first = {"op": "new", "t": t, "c": d, "parent": c}
+                    op["enterSub"] = d
+                    self.ctxs[d]["state"] = "leaked"
+                    self.cur[t] = d
+                    if first is not None:
+                        self.queue.insert(0, op)
+                        return first
             return op
         if kind == "current":
             return {"op": "current", "t": t}
@@ -454,6 +471,13 @@ def valid_ops(ops: list[dict[str, Any]]) -> bool:
             return False
         if op.get("via") in ("shortcut", "ctxtd") and cur[t] != c:
             return False
+        if k == "addtd" and op.get("enterSub") is not None:
+            d = op["enterSub"]
+            if op.get("via") != "ctxtd" or d not in ctxs or ctxs[d]["state"] != "inactive" or ctxs[d]["parent"] != c \
+                    or ctxs[c]["state"] != "open":
+                return False
+            ctxs[d]["state"] = "leaked"
+            cur[t] = d
         if k == "enter":
             if op.get("manual"):
                 if ctxs[c]["state"] != "inactive" or ctxs[c]["parent"] is None:
